@@ -30,8 +30,10 @@ type c03Desc struct {
 	StoreID   bool   `json:"id,omitempty"`
 	ZeroEOF   bool   `json:"zeroeof,omitempty"`
 	MaxCid    uint64 `json:"maxcid,omitempty"`
-	Empty     bool   `json:"empty,omitempty"` // payload without any section
-	Big       int    `json:"big,omitempty"`   // >0: that many tiny sections (the index is built from tens of thousands of records)
+	MaxCidAt  int    `json:"maxcid_at,omitempty"` // 1: MaxIndexCidSize exactly the longest indexable CID; 2: one below it
+	Empty     bool   `json:"empty,omitempty"`     // payload without any section
+	Huge      bool   `json:"huge,omitempty"`      // one section of more than 8 MiB (over the default limit of the BUFFERING readers, which index generation is not)
+	Big       int    `json:"big,omitempty"`       // >0: that many tiny sections (the index is built from tens of thousands of records)
 }
 
 type idxKey struct {
@@ -183,6 +185,12 @@ func runC03(t *mon.T, raw json.RawMessage) {
 		}
 		t.Cover("big-payloads")
 	}
+	if d.Huge {
+		huge := refcar.Block{Cid: refcar.MakeCidV1(0x55, 0x12, gen.Bytes(r, 32)), Data: make([]byte, 8<<20+r.Intn(100))}
+		i := r.Intn(len(content.Blocks) + 1)
+		content.Blocks = append(append(append([]refcar.Block{}, content.Blocks[:i]...), huge), content.Blocks[i:]...)
+		t.Cover("payloads-with-a-section-over-8MiB")
+	}
 	// always include the designed corner cases
 	base := content.Blocks[0]
 	bc, _, _ := refcar.SplitCid(base.Cid)
@@ -242,6 +250,18 @@ func runC03(t *mon.T, raw json.RawMessage) {
 		}
 	}
 	probes = append(probes, refcar.MakeCidV1(0x55, 0x12, gen.Bytes(r, 33)), refcar.MakeCidV1(0x55, 0x00, []byte("absent identity")))
+	if d.MaxCidAt != 0 {
+		var longest uint64
+		for _, s := range ref.Sections {
+			if (!s.Cid.IsIdentity() || d.StoreID) && uint64(len(s.Cid.Raw)) > longest {
+				longest = uint64(len(s.Cid.Raw))
+			}
+		}
+		if longest > 1 {
+			d.MaxCid = longest - uint64(d.MaxCidAt-1)
+			t.Cover(fmt.Sprintf("max-cid-size:longest-minus-%d", d.MaxCidAt-1))
+		}
+	}
 
 	opts := lab.Cfg{StoreID: d.StoreID, ZeroEOF: d.ZeroEOF, MaxCid: d.MaxCid}.Opts()
 
@@ -342,7 +362,7 @@ func runC03(t *mon.T, raw json.RawMessage) {
 	for _, b := range builders {
 		marsh[b.name] = map[string][]byte{}
 		for _, s := range sources {
-			if d.Big > 0 && s.name != "bytes.Reader" && s.name != "plain io.Reader" {
+			if (d.Big > 0 || d.Huge) && s.name != "bytes.Reader" && s.name != "plain io.Reader" {
 				continue // two source kinds are enough for the payloads with tens of thousands of sections
 			}
 			if s.name == "Reader.DataReader" && d.Container == "v1-nullpad" && !d.ZeroEOF {
@@ -416,6 +436,46 @@ func runC03(t *mon.T, raw json.RawMessage) {
 			}
 		}
 	}
+	// the same sections behind a header in another (accepted) CBOR form — non-minimal integer,
+	// indefinite-length array or map, other key order: offsets are where the sections ARE, not where a
+	// re-encoded header would put them
+	if d.Container == "v1" && d.MaxCid == 0 && d.Big == 0 && !d.Huge && len(ref.Header.Roots) > 0 && !content.NilRoots {
+		rest := payload[ref.HeaderSize:]
+		for _, hv := range c13LenientHeaders(ref.Header.Roots) {
+			in := append(append(refcar.PutUvarint(nil, uint64(len(hv.body))), hv.body...), rest...)
+			delta := uint64(len(in)) - uint64(len(payload)) // wraps for a shorter header; added below, it wraps back
+			for _, plain := range []bool{false, true} {
+				var src io.Reader = bytes.NewReader(in)
+				if plain {
+					src = lab.PlainReader{R: bytes.NewReader(in)}
+				}
+				idx, err := carv2.GenerateIndex(src, opts...)
+				t.Events(1)
+				if err != nil {
+					t.Cover("lenient-header:not-accepted:" + hv.name)
+					continue
+				}
+				t.Cover("lenient-header:" + hv.name)
+				for _, sec := range ref.Sections {
+					if sec.Cid.IsIdentity() && !d.StoreID {
+						continue
+					}
+					offs, _ := getAll(idx, sec.Cid.Raw)
+					found := false
+					for _, o := range offs {
+						if o == sec.Offset+delta {
+							found = true
+						}
+					}
+					if !found {
+						t.ViolateD("GenerateIndex/lenient-header:"+hv.name+"/offset-is-not-the-section-start", map[string]any{"header_hex": lab.Hex(hv.body), "got": offs, "section_start": sec.Offset + delta},
+							"GenerateIndex behind a %s header: offsets %v for a CID whose section starts at %d", hv.name, offs, sec.Offset+delta)
+						break
+					}
+				}
+			}
+		}
+	}
 	t.Sample(map[string]any{"container": d.Container, "sections": len(ref.Sections), "indexable": len(exp.all), "store_identity": d.StoreID, "zero_eof": d.ZeroEOF, "max_cid": d.MaxCid, "null_padding": nullpad})
 }
 
@@ -471,10 +531,16 @@ func genC03(g *mon.G) {
 		if r.Intn(5) == 0 {
 			d.MaxCid = []uint64{36, 40, 60, 100, 1 << 63, math.MaxUint64}[r.Intn(6)] // the last two: "no limit"
 		}
+		if i%16 == 7 {
+			d.MaxCid, d.MaxCidAt = 0, 1+(i/16)%2 // the limit exactly at / one below the longest CID that is indexed
+		}
 		g.Emit(d)
 	}
 	for i := 0; i < g.Pick(40, 200); i++ {
 		g.Emit(c03Desc{Seed: r.Int63(), Container: conts[i%len(conts)], StoreID: i%2 == 0, Empty: true})
+	}
+	for i := 0; i < g.Pick(2, 10); i++ {
+		g.Emit(c03Desc{Seed: r.Int63(), Container: []string{"v1", "v2-indexless", "v2", "v2-pad"}[i%4], StoreID: i%2 == 0, Huge: true})
 	}
 	for i := 0; i < g.Pick(3, 20); i++ {
 		g.Emit(c03Desc{Seed: r.Int63(), Container: []string{"v1", "v2-indexless", "v2-pad"}[i%3], StoreID: i%2 == 0, Big: []int{16500, 33000, 50000}[i%3] + r.Intn(3000)})
@@ -489,7 +555,7 @@ func init() {
 		Assumptions: []string{"reference scan (refcar.DecodeV1) yields the true key → offsets multiset", "the insertion index is not an on-disk codec: digest-keyed or multihash-keyed GetAll answers are both accepted for it"},
 		Gen:         genC03,
 		Run:         runC03,
-		MinCover: map[string]int{"failing-source-probes": 500, "fully-indexed-bit-set-but-option-off": 50, "big-payloads": 3,
+		MinCover: map[string]int{"failing-source-probes": 500, "fully-indexed-bit-set-but-option-off": 50, "big-payloads": 3, "payloads-with-a-section-over-8MiB": 2,
 			"container:v1": 20, "container:v1-nullpad": 20, "container:v2": 20, "container:v2-pad": 20, "container:v2-indexless": 20,
 			"index-built": 500, "empty-payload:v2": 3, "empty-payload:v2-pad": 3, "empty-payload:v1": 3, "cid-too-large-rejected": 10, "source:plain io.Reader": 100, "source:bufio.Reader (ByteReader, no Seek)": 100, "source:bytes.Buffer (ByteReader, no Seek)": 100, "source:Reader.DataReader": 100,
 		},
